@@ -74,7 +74,8 @@ class O:
 
 def ident(t):
     def rec(h):
-        return [(id(c), id(c.data), c.data_id, getattr(c, "kind", None), dict(c.meta) if c.meta else None, rec(c)) for c in h.children]
+        return [(id(c), id(c.data), c.data_id, getattr(c, "kind", None), dict(c.meta) if c.meta else None, id(c.parent), id(c.tree), rec(c))
+                for c in h.children]
 
     return (t.count, rec(t))
 
